@@ -252,8 +252,14 @@ def run_case(ctx, mods, cap, cs, r):
         ref_f[r.randrange(nsrc), silent_k * hop: silent_k * hop + window] = 0.0
     try:
         fw = ff(ref_f, est, window=window, hop=hop, compute_permutation=cperm)
-    except ValueError:
-        ctx.count("framewise.rejected(whole-signal silent?)")
+    except ValueError as e:
+        # only one window of one source was silenced, so the input as a whole is
+        # valid: a ValueError here means a silent window was not handled
+        ctx.violation("C19/separation.%s_framewise/raises-on-silent-window" % fn,
+                      "raises-on-silent-window", "separation.%s_framewise" % fn,
+                      "framewise call raised ValueError(%s) instead of returning NaN "
+                      "for the silent window" % str(e)[:80],
+                      {"kind": "case", "ref": ref_f, "est": est})
         fw = None
     if fw is not None:
         ctx.ev()
